@@ -41,6 +41,8 @@ def parse(xml: str):
         raise IllFormed(str(e)) from e
     # libxml2 reports namespace errors as recoverable errors in the log: treat as fatal
     for entry in parser.error_log:
+        if entry.level_name == "WARNING":
+            continue        # e.g. a relative namespace URI: deprecated, not an error
         raise IllFormed(f"{entry.type_name}: {entry.message}")
     return root
 
